@@ -2,6 +2,7 @@
   Neigh.Lemmas — helper lemmas for Neigh.Props (core Lean only).
 -/
 import Neigh.Model
+import Neigh.Spec
 
 namespace Neigh
 
@@ -82,6 +83,28 @@ theorem Scores.nodup_incr {m : Scores} (k : String) (h : m.keys.Nodup) : (m.incr
     intro a ha b hb
     simp at hb; subst hb
     exact fun e => hk (e ▸ ha)
+
+theorem Scores.get_incr_self (m : Scores) (k : String) : (m.incr k).get k = m.get k + 1 := by
+  induction m with
+  | nil => simp [Scores.incr, Scores.get]
+  | cons e m ih =>
+    obtain ⟨k', v⟩ := e
+    by_cases h : k' = k
+    · simp [Scores.incr, Scores.get, h]
+    · simp [Scores.incr, Scores.get, h, ih]
+
+theorem Scores.get_incr_other (m : Scores) {k k2 : String} (hne : k2 ≠ k) :
+    (m.incr k).get k2 = m.get k2 := by
+  have hne' : ¬ k = k2 := fun e => hne e.symm
+  induction m with
+  | nil => simp [Scores.incr, Scores.get, hne']
+  | cons e m ih =>
+    obtain ⟨k', v⟩ := e
+    by_cases h : k' = k
+    · subst h; simp [Scores.incr, Scores.get, hne']
+    · by_cases h2 : k' = k2
+      · subst h2; simp [Scores.incr, Scores.get, h]
+      · simp [Scores.incr, Scores.get, h, h2, ih]
 
 /-! ## keys of `neighborsByScore`, sorted -/
 
@@ -242,5 +265,395 @@ theorem selectLoop_panic (shuffle : List Sender → List Sender) (cands : List (
   rw [if_pos h1]
   have h2 : count - ((0 : Nat) : Int) < 0 := by omega
   rw [if_pos h2]
+
+/-- What one run of `selectOutbounds` guarantees when it returns. -/
+structure SelectOK (cands : List (Sender × Int)) (count : Int) (outs : List Sender) : Prop where
+  length_eq : (outs.length : Int) = if count ≤ (cands.length : Int) then count else (cands.length : Int)
+  sub : ∃ l, outs.Sublist l ∧ l.Perm (cands.map (·.1))
+  best : ∀ x ∈ outs, ∃ sx, (x, sx) ∈ cands ∧ ∀ y sy, (y, sy) ∈ cands → y ∉ outs → sy ≤ sx
+
+theorem select_ok (shuffle : List Sender → List Sender) (hshuf : ∀ l, (shuffle l).Perm l)
+    (cands : List (Sender × Int)) (count : Int) (hc : 0 ≤ count) :
+    ∃ outs, selectLoop shuffle cands count (keysDesc cands) [] = some outs ∧
+      SelectOK cands count outs := by
+  obtain ⟨res, hres, hsp⟩ := selectLoop_spec shuffle cands count (keysDesc cands) [] (by simpa using hc)
+  refine ⟨res, hres, ?_⟩
+  have hperm := keys_flatMap_bucket_perm cands
+  have hdesc := keysDesc_desc cands
+  have htot : ((keysDesc cands).flatMap (bucket cands)).length = cands.length := by
+    rw [hperm.length_eq, List.length_map]
+  rcases hsp with ⟨hi, t, lo, n, hks, hn, hr, hcnt⟩ | ⟨hr, hl⟩
+  · rw [List.nil_append] at hr hcnt
+    rw [hks, List.flatMap_append, List.flatMap_cons] at hperm htot
+    have hsl : ((shuffle (bucket cands t)).take n).length = n := by
+      rw [List.length_take, (hshuf _).length_eq]; omega
+    refine ⟨?_, ?_, ?_⟩
+    · rw [hr, List.length_append, hsl]
+      simp only [List.length_append] at htot
+      split <;> omega
+    · refine ⟨hi.flatMap (bucket cands) ++ (shuffle (bucket cands t) ++ lo.flatMap (bucket cands)), ?_, ?_⟩
+      · rw [hr]
+        exact List.Sublist.append (List.Sublist.refl _)
+          ((List.take_sublist _ _).trans (List.sublist_append_left _ _))
+      · exact (List.Perm.append (List.Perm.refl _)
+          (List.Perm.append (hshuf _) (List.Perm.refl _))).trans hperm
+    · rw [hks, List.pairwise_append, List.pairwise_cons] at hdesc
+      obtain ⟨_, ⟨htlo, _⟩, hhi⟩ := hdesc
+      intro x hx
+      rw [hr, List.mem_append] at hx
+      -- the score under which x was selected
+      have hxk : ∃ k, (k ∈ hi ∨ k = t) ∧ (x, k) ∈ cands := by
+        rcases hx with hx | hx
+        · obtain ⟨k, hk, hxk⟩ := List.mem_flatMap.1 hx
+          exact ⟨k, Or.inl hk, mem_bucket.1 hxk⟩
+        · have := ((hshuf _).mem_iff).1 (List.mem_of_mem_take hx)
+          exact ⟨t, Or.inr rfl, mem_bucket.1 this⟩
+      obtain ⟨k, hk, hxc⟩ := hxk
+      refine ⟨k, hxc, ?_⟩
+      intro y sy hy hny
+      have hsy : sy ∈ keysDesc cands := mem_keysDesc.2 ⟨(y, sy), hy, rfl⟩
+      rw [hks, List.mem_append, List.mem_cons] at hsy
+      have hkt : t ≤ k := by
+        rcases hk with hk | hk
+        · have := hhi k hk t List.mem_cons_self; omega
+        · omega
+      rcases hsy with hsy | hsy | hsy
+      · exfalso; apply hny; rw [hr, List.mem_append]
+        exact Or.inl (List.mem_flatMap.2 ⟨sy, hsy, mem_bucket.2 hy⟩)
+      · omega
+      · have := htlo sy hsy; omega
+  · rw [List.nil_append] at hr
+    have hlen : res.length = cands.length := by rw [hr, htot]
+    refine ⟨?_, ⟨res, List.Sublist.refl _, hr ▸ hperm⟩, ?_⟩
+    · split <;> omega
+    · intro x hx
+      have hx' : x ∈ cands.map (·.1) := (hperm.mem_iff).1 (hr ▸ hx)
+      obtain ⟨⟨x', sx⟩, hc', hxe⟩ := List.mem_map.1 hx'
+      simp only at hxe; subst hxe
+      refine ⟨sx, hc', ?_⟩
+      intro y sy hy hny
+      exfalso; apply hny
+      rw [hr]; exact (hperm.mem_iff).2 (List.mem_map.2 ⟨(y, sy), hy, rfl⟩)
+
+/-! ## candidates of a round -/
+
+theorem candidate_some {env : Env} {host : String} {reach : String → String → Bool}
+    {e : String × Int} {c : Sender × Int} (h : candidate env host reach e = some c) :
+    e.1 ≠ host ∧ c.2 = e.2 ∧ ∃ ip port, env.parse e.1 = some (ip, port) ∧ reach ip port = true ∧
+      c.1 = ⟨e.1, ip, port, env.senderTarget ip port⟩ := by
+  unfold candidate at h
+  split at h
+  · next hne =>
+    split at h
+    · cases h
+    · next ip port hp =>
+      split at h
+      · next hr => cases h; exact ⟨hne, rfl, ip, port, hp, hr, rfl⟩
+      · cases h
+  · cases h
+
+theorem candidate_of {env : Env} {host : String} {reach : String → String → Bool}
+    {e : String × Int} {ip port : String} (hne : e.1 ≠ host) (hp : env.parse e.1 = some (ip, port))
+    (hr : reach ip port = true) :
+    candidate env host reach e = some (⟨e.1, ip, port, env.senderTarget ip port⟩, e.2) := by
+  unfold candidate
+  rw [if_pos hne, hp]
+  simp [hr]
+
+theorem mem_candidates {env : Env} {host : String} {reach : String → String → Bool}
+    {entries : Scores} {c : Sender × Int} :
+    c ∈ candidates env host reach entries ↔
+      (c.1.value, c.2) ∈ entries ∧ c.1.value ≠ host ∧ ∃ ip port, env.parse c.1.value = some (ip, port) ∧
+        reach ip port = true ∧ c.1 = ⟨c.1.value, ip, port, env.senderTarget ip port⟩ := by
+  unfold candidates
+  rw [List.mem_filterMap]
+  constructor
+  · rintro ⟨e, he, hc⟩
+    obtain ⟨hne, h2, ip, port, hp, hr, h1⟩ := candidate_some hc
+    have hv : c.1.value = e.1 := by rw [h1]
+    have he' : (c.1.value, c.2) = e := by rw [hv, h2]
+    rw [he', hv]
+    exact ⟨he, hne, ip, port, hp, hr, by rw [h1]⟩
+  · rintro ⟨he, hne, ip, port, hp, hr, h1⟩
+    refine ⟨(c.1.value, c.2), he, ?_⟩
+    rw [candidate_of (e := (c.1.value, c.2)) hne hp hr]
+    obtain ⟨c1, c2⟩ := c
+    simp only at h1 ⊢
+    rw [← h1]
+
+theorem candidates_values_nodup {env : Env} {host : String} {reach : String → String → Bool}
+    {entries : Scores} (h : entries.keys.Nodup) :
+    ((candidates env host reach entries).map (·.1.value)).Nodup := by
+  unfold Scores.keys at h
+  unfold List.Nodup at h ⊢
+  rw [List.pairwise_map] at h ⊢
+  unfold candidates
+  refine List.Pairwise.filterMap _ ?_ h
+  intro a a' hne b hb b' hb'
+  obtain ⟨_, _, _, _, _, _, h1⟩ := candidate_some hb
+  obtain ⟨_, _, _, _, _, _, h1'⟩ := candidate_some hb'
+  rw [h1, h1']; exact hne
+
+theorem nodup_of_map {α β : Type} (f : α → β) {l : List α} (h : (l.map f).Nodup) : l.Nodup := by
+  unfold List.Nodup at h ⊢
+  rw [List.pairwise_map] at h
+  exact h.imp (fun {a b} hab (e : a = b) => hab (congrArg f e))
+
+theorem source_keys_nodup {st : State} (h : st.WF) : st.source.keys.Nodup := by
+  unfold State.source; split
+  · exact h.1
+  · exact h.2
+
+theorem goMin_nonneg {a : Nat} {m : Int} (hm : 0 ≤ m) : 0 ≤ goMin (a : Int) m := by
+  unfold goMin; split <;> omega
+
+/-! ## one refresh round -/
+
+theorem synchronize_eq_of_select {env : Env} {reach : String → String → Bool} {order : Scores → Scores}
+    {shuffle : List Sender → List Sender} {st : State} {outs : List Sender}
+    (h : selectLoop shuffle (candidates env st.hostValue reach (order st.source))
+          (goMin (st.source.length : Int) st.max)
+          (keysDesc (candidates env st.hostValue reach (order st.source))) [] = some outs) :
+    synchronize env reach order shuffle st =
+      ({ st with scores := [], senders := outs },
+       .ok (outs.map (fun o => (o, fanoutFor
+          (targetValuesOf st.hostValue (candidates env st.hostValue reach (order st.source))) o)))) := by
+  simp only [synchronize, selectOutbounds, h]
+
+theorem synchronize_eq_of_panic {env : Env} {reach : String → String → Bool} {order : Scores → Scores}
+    {shuffle : List Sender → List Sender} {st : State}
+    (h : selectLoop shuffle (candidates env st.hostValue reach (order st.source))
+          (goMin (st.source.length : Int) st.max)
+          (keysDesc (candidates env st.hostValue reach (order st.source))) [] = none) :
+    synchronize env reach order shuffle st = ({ st with scores := [] }, .panic) := by
+  simp only [synchronize, selectOutbounds, h]
+
+theorem round_ok (env : Env) (reach : String → String → Bool) (order : Scores → Scores)
+    (shuffle : List Sender → List Sender) (st : State) (hwf : st.WF) (hmax : 0 ≤ st.max)
+    (ho : Rearranges order) (hs : Rearranges shuffle) :
+    RoundOK env reach st (synchronize env reach order shuffle st) := by
+  have hcp : (candidates env st.hostValue reach (order st.source)).Perm
+      (candidates env st.hostValue reach st.source) := (ho st.source).filterMap _
+  have hsrc := source_keys_nodup hwf
+  have hord : (order st.source).keys.Nodup := by
+    have hp : (order st.source).keys.Perm st.source.keys := (ho st.source).map _
+    exact hp.nodup_iff.2 hsrc
+  obtain ⟨outs, hsel, hok⟩ := select_ok shuffle hs (candidates env st.hostValue reach (order st.source))
+    (goMin (st.source.length : Int) st.max) (goMin_nonneg hmax)
+  rw [synchronize_eq_of_select hsel]
+  generalize hcands : candidates env st.hostValue reach (order st.source) = cands at hsel hok hcp
+  obtain ⟨l, hsub, hl⟩ := hok.sub
+  have hmem : ∀ o ∈ outs, ∃ sc, (o, sc) ∈ cands := by
+    intro o ho'
+    have := (hl.mem_iff).1 (hsub.subset ho')
+    obtain ⟨⟨o', sc⟩, hc, he⟩ := List.mem_map.1 this
+    simp only at he; subst he; exact ⟨sc, hc⟩
+  have hmc : ∀ {c : Sender × Int}, c ∈ cands ↔
+      (c.1.value, c.2) ∈ st.source ∧ c.1.value ≠ st.hostValue ∧ ∃ ip port,
+        env.parse c.1.value = some (ip, port) ∧ reach ip port = true ∧
+        c.1 = ⟨c.1.value, ip, port, env.senderTarget ip port⟩ := by
+    intro c; rw [← hcands, mem_candidates, (ho st.source).mem_iff]
+  have hlen : (cands.length : Int) = (candidateCount env reach st : Int) := by
+    unfold candidateCount; rw [hcp.length_eq]
+  have hle : cands.length ≤ st.source.length := by
+    rw [← hcands]; unfold candidates
+    exact Nat.le_trans (List.length_filterMap_le _ _) (Nat.le_of_eq (ho st.source).length_eq)
+  have hcnt : (outs.length : Int) = min st.max (candidateCount env reach st : Int) := by
+    have h1 := hok.length_eq
+    rw [← hlen]
+    unfold goMin at h1
+    split at h1 <;> split at h1 <;> omega
+  have hvals : (outs.map (·.value)).Nodup := by
+    have h1 : (outs.map (·.value)).Sublist (l.map (·.value)) := hsub.map _
+    have h2 : (l.map (·.value)).Perm (cands.map (·.1.value)) := by
+      have := hl.map (·.value); rwa [List.map_map] at this
+    have h3 : (cands.map (·.1.value)).Nodup := by rw [← hcands]; exact candidates_values_nodup hord
+    exact h1.nodup (h2.nodup_iff.2 h3)
+  refine ⟨rfl, ?_, hcnt, hvals, ?_, ?_, ?_, ?_, ?_, ⟨rfl, rfl, rfl, rfl, rfl, rfl⟩⟩
+  · show (outs.length : Int) ≤ st.max
+    omega
+  · intro o ho'
+    obtain ⟨sc, hc⟩ := hmem o ho'
+    exact (hmc.1 hc).2.1
+  · intro o ho'
+    obtain ⟨sc, hc⟩ := hmem o ho'
+    exact List.mem_map.2 ⟨(o.value, sc), (hmc.1 hc).1, rfl⟩
+  · intro o ho'
+    obtain ⟨sc, hc⟩ := hmem o ho'
+    obtain ⟨_, _, ip, port, hp, hr, he⟩ := hmc.1 hc
+    exact ⟨ip, port, hp, hr, he⟩
+  · intro o ho' so hso v sv hcand hv
+    obtain ⟨sx, hxc, hbest⟩ := hok.best o ho'
+    have hsx : sx = so := fst_unique hsrc (hmc.1 hxc).1 hso
+    subst hsx
+    obtain ⟨hvs, hvh, ip, port, hp, hr⟩ := hcand
+    have hy : ((⟨v, ip, port, env.senderTarget ip port⟩ : Sender), sv) ∈ cands :=
+      hmc.2 ⟨hvs, hvh, ip, port, hp, hr, rfl⟩
+    refine hbest _ sv hy ?_
+    intro hin
+    exact hv (List.mem_map.2 ⟨_, hin, rfl⟩)
+  · refine ⟨cands.map (·.1.value), hcp.map _, ?_⟩
+    rfl
+
+/-! ## AddTargets / Incentive -/
+
+/-- fields that only `NewNeighborhood` sets -/
+def SameConfig (a b : State) : Prop :=
+  a.hostIp = b.hostIp ∧ a.hostPort = b.hostPort ∧ a.hostValue = b.hostValue ∧ a.max = b.max ∧
+    a.seeds = b.seeds
+
+theorem SameConfig.refl (a : State) : SameConfig a a := ⟨rfl, rfl, rfl, rfl, rfl⟩
+
+theorem SameConfig.trans {a b c : State} (h1 : SameConfig a b) (h2 : SameConfig b c) : SameConfig a c :=
+  ⟨h1.1.trans h2.1, h1.2.1.trans h2.2.1, h1.2.2.1.trans h2.2.2.1, h1.2.2.2.1.trans h2.2.2.2.1,
+   h1.2.2.2.2.trans h2.2.2.2.2⟩
+
+theorem acceptable_congr {env : Env} {a b : State} (h : a.hostPort = b.hostPort) (v : String) :
+    Acceptable env a v ↔ Acceptable env b v := by
+  unfold Acceptable; rw [h]
+
+theorem addTarget_cases (env : Env) (st : State) (v : String) :
+    (addTarget env st v = st) ∨
+    (addTarget env st v = { st with scores := st.scores ++ [(v, 0)] } ∧ v ∉ st.scores.keys ∧
+      Acceptable env st v) := by
+  unfold addTarget
+  split
+  · exact Or.inl rfl
+  · next ip port hp =>
+    simp only
+    split
+    · next hc =>
+      rw [Bool.and_eq_true, Bool.not_eq_true'] at hc
+      refine Or.inr ⟨rfl, ?_, ip, port, hp, ?_⟩
+      · intro hin; have := (Scores.has_iff _ _).2 hin; rw [this] at hc; exact absurd hc.1 (by simp)
+      · have := hc.2; unfold sameNetwork at this; rw [beq_iff_eq] at this; exact this.symm
+    · exact Or.inl rfl
+
+theorem addTarget_accepts {env : Env} {st : State} {v : String} (h : Acceptable env st v) :
+    v ∈ (addTarget env st v).scores.keys := by
+  obtain ⟨ip, port, hp, hn⟩ := h
+  unfold addTarget
+  rw [hp]
+  simp only
+  by_cases hk : st.scores.has v = true
+  · simp only [hk, Bool.not_true, Bool.false_and]
+    exact (Scores.has_iff _ _).1 hk
+  · have hk' : st.scores.has v = false := by simpa using hk
+    have hsn : sameNetwork st.hostPort port = true := by
+      unfold sameNetwork; rw [beq_iff_eq]; exact hn.symm
+    simp only [hk', hsn, Bool.not_false, Bool.and_self, if_true]
+    rw [Scores.keys_addNew]; simp
+
+theorem addTarget_config (env : Env) (st : State) (v : String) :
+    SameConfig (addTarget env st v) st ∧ (addTarget env st v).senders = st.senders := by
+  rcases addTarget_cases env st v with h | ⟨h, _⟩ <;> rw [h]
+  · exact ⟨SameConfig.refl _, rfl⟩
+  · exact ⟨⟨rfl, rfl, rfl, rfl, rfl⟩, rfl⟩
+
+theorem addTarget_wf {env : Env} {st : State} (v : String) (h : st.WF) : (addTarget env st v).WF := by
+  rcases addTarget_cases env st v with h' | ⟨h', hk, _⟩ <;> rw [h']
+  · exact h
+  · exact ⟨h.1, Scores.nodup_addNew 0 h.2 hk⟩
+
+theorem addTargets_config (env : Env) : ∀ (vs : List String) (st : State),
+    SameConfig (addTargets env st vs) st ∧ (addTargets env st vs).senders = st.senders
+  | [], st => ⟨SameConfig.refl _, rfl⟩
+  | v :: vs, st => by
+    have ih := addTargets_config env vs (addTarget env st v)
+    have h1 := addTarget_config env st v
+    exact ⟨ih.1.trans h1.1, ih.2.trans h1.2⟩
+
+theorem addTargets_wf (env : Env) : ∀ (vs : List String) (st : State), st.WF → (addTargets env st vs).WF
+  | [], _, h => h
+  | v :: vs, st, h => addTargets_wf env vs (addTarget env st v) (addTarget_wf v h)
+
+theorem addTargets_old (env : Env) : ∀ (vs : List String) (st : State) (e : String × Int),
+    e ∈ st.scores → e ∈ (addTargets env st vs).scores
+  | [], _, _, h => h
+  | v :: vs, st, e, h => by
+    refine addTargets_old env vs (addTarget env st v) e ?_
+    rcases addTarget_cases env st v with h' | ⟨h', _⟩ <;> rw [h']
+    · exact h
+    · exact List.mem_append_left _ h
+
+theorem addTargets_new (env : Env) : ∀ (vs : List String) (st : State) (e : String × Int),
+    e ∈ (addTargets env st vs).scores →
+      e ∈ st.scores ∨ (e.2 = 0 ∧ e.1 ∈ vs ∧ e.1 ∉ st.scores.keys ∧ Acceptable env st e.1)
+  | [], _, _, h => Or.inl h
+  | v :: vs, st, e, h => by
+    have hcfg := (addTarget_config env st v).1
+    rcases addTargets_new env vs (addTarget env st v) e h with h1 | ⟨h0, hin, hnk, hacc⟩
+    · rcases addTarget_cases env st v with h' | ⟨h', hk, hacc⟩
+      · rw [h'] at h1; exact Or.inl h1
+      · rw [h'] at h1
+        rcases List.mem_append.1 h1 with h1 | h1
+        · exact Or.inl h1
+        · simp only [List.mem_singleton] at h1
+          subst h1
+          exact Or.inr ⟨rfl, List.mem_cons_self, hk, hacc⟩
+    · have hacc' : Acceptable env st e.1 := (acceptable_congr hcfg.2.1 _).1 hacc
+      have hnk' : e.1 ∉ st.scores.keys := by
+        intro hin'
+        apply hnk
+        obtain ⟨e', he', hk'⟩ := List.mem_map.1 hin'
+        have : e' ∈ (addTarget env st v).scores := by
+          rcases addTarget_cases env st v with h' | ⟨h', _⟩ <;> rw [h']
+          · exact he'
+          · exact List.mem_append_left _ he'
+        exact List.mem_map.2 ⟨e', this, hk'⟩
+      exact Or.inr ⟨h0, List.mem_cons_of_mem _ hin, hnk', hacc'⟩
+
+theorem addTargets_keys_mono (env : Env) (vs : List String) (st : State) {k : String}
+    (h : k ∈ st.scores.keys) : k ∈ (addTargets env st vs).scores.keys := by
+  obtain ⟨e, he, hk⟩ := List.mem_map.1 h
+  exact List.mem_map.2 ⟨e, addTargets_old env vs st e he, hk⟩
+
+theorem addTargets_complete (env : Env) : ∀ (vs : List String) (st : State) (v : String),
+    v ∈ vs → Acceptable env st v → v ∈ (addTargets env st vs).scores.keys
+  | [], _, _, h, _ => by cases h
+  | w :: vs, st, v, h, hacc => by
+    have hcfg := (addTarget_config env st w).1
+    rcases List.mem_cons.1 h with rfl | h
+    · exact addTargets_keys_mono env vs _ (addTarget_accepts hacc)
+    · exact addTargets_complete env vs (addTarget env st w) v h ((acceptable_congr hcfg.2.1 _).2 hacc)
+
+theorem incentive_wf {st : State} (v : String) (h : st.WF) : (incentive st v).WF :=
+  ⟨h.1, Scores.nodup_incr v h.2⟩
+
+/-! ## operation sequences -/
+
+theorem synchronize_config (env : Env) (reach : String → String → Bool) (order : Scores → Scores)
+    (shuffle : List Sender → List Sender) (st : State) :
+    SameConfig (synchronize env reach order shuffle st).1 st ∧
+      (synchronize env reach order shuffle st).1.scores = [] := by
+  unfold synchronize
+  simp only
+  split <;> exact ⟨⟨rfl, rfl, rfl, rfl, rfl⟩, rfl⟩
+
+theorem step_config (env : Env) (st : State) (op : Op) : SameConfig (step env st op) st := by
+  cases op with
+  | addTargets vs => exact (addTargets_config env vs st).1
+  | incentive v => exact ⟨rfl, rfl, rfl, rfl, rfl⟩
+  | synchronize r o s => exact (synchronize_config env r o s st).1
+
+theorem step_wf (env : Env) {st : State} (op : Op) (h : st.WF) : (step env st op).WF := by
+  cases op with
+  | addTargets vs => exact addTargets_wf env vs st h
+  | incentive v => exact incentive_wf v h
+  | synchronize r o s =>
+    have hc := synchronize_config env r o s st
+    refine ⟨?_, ?_⟩
+    · show (synchronize env r o s st).1.seeds.keys.Nodup
+      rw [hc.1.2.2.2.2]; exact h.1
+    · show (synchronize env r o s st).1.scores.keys.Nodup
+      rw [hc.2]; exact List.nodup_nil
+
+theorem run_config (env : Env) : ∀ (ops : List Op) (st : State), SameConfig (run env st ops) st
+  | [], st => SameConfig.refl st
+  | op :: ops, st => (run_config env ops (step env st op)).trans (step_config env st op)
+
+theorem run_wf (env : Env) : ∀ (ops : List Op) (st : State), st.WF → (run env st ops).WF
+  | [], _, h => h
+  | op :: ops, st, h => run_wf env ops (step env st op) (step_wf env op h)
 
 end Neigh
